@@ -55,15 +55,15 @@ Proof. exact expand_tree_rep. Qed.
 Print Assumptions C01_expand_tree_repeat.
 
 (* the same with parenthesised groups, nested to any depth, and `*N` on elements and groups.
-   Syntax [sstmt]: a unit is a letter name or `( statement )`, each optionally followed by `*` and
-   a digit run; units are separated by `>`, `+` and runs of `^` ([render3]).
+   Syntax [sstmt]: a unit is a name (a letter, then letters, ASCII digits, `-`, `_`, `:`) or
+   `( statement )`, each optionally followed by `*` and a digit run; units are separated by `>`, `+` and runs of `^` ([render3]).
    Spec [unrollS3 xs] = [unrollM (smarks 0 0 xs)].  [smarks] is the depth-counter mark list of the
    text: an element with its depth and number of copies; a bracket pair around a group's contents
    (written at the group's own depth, `^` stops at the top of the group), the group's number of
    copies on the closing one; a group is one unit for what follows it.  [unrollM]: an element
    stands for k consecutive copies of itself followed by everything written deeper right after
    it; a bracket pair stands for k consecutive copies of its contents.
-   Domain [grp_ok]: as [flat_ok]; digit runs; `>` never directly after a group (documented
+   Domain [grp_ok]: as [flat_ok] with the wider names; digit runs; `>` never directly after a group (documented
    grammar); element copies + group copies of the unrolled statement within the repeat budget. *)
 Theorem C01_expand_tree_groups :
   forall (x : xconfig) (xs : sstmt),
@@ -170,6 +170,20 @@ Example C01_expand_jsx_nonvacuous :
   flat_ok (mkX ex_mj (ex_o true "xhtml")) xs = true /\
   match expand_markup (mkX ex_mj (ex_o true "xhtml")) (render xs) with
   | Ok st => nestT 0 (tags st) = [(0, S "Foo"); (1, S "Bar"); (1, S "zz")]
+  | _ => False
+  end.
+Proof. vm_compute. repeat split; reflexivity. Qed.
+
+(* non-vacuity with names containing digits, `-` and `:`: "ul>(li>h1+x-y)*2+ns:el*2" *)
+Example C01_expand_groups_wide_names :
+  let xs := [(UE (S "ul") None, SChild);
+             (UG [(UE (S "li") None, SChild); (UE (S "h1") None, SSibling); (UE (S "x-y") None, SSibling)] (Some (S "2")), SSibling);
+             (UE (S "ns:el") (Some (S "2")), SSibling)] in
+  grp_ok (mkX ex_m (ex_o true "html")) xs = true /\
+  render3 xs = S "ul>(li>h1+x-y)*2+ns:el*2" /\
+  match expand_markup (mkX ex_m (ex_o true "html")) (render3 xs) with
+  | Ok st => nestT 0 (tags st) = [(0, S "ul"); (1, S "li"); (2, S "h1"); (2, S "x-y"); (1, S "li"); (2, S "h1"); (2, S "x-y");
+                                  (1, S "ns:el"); (1, S "ns:el")]
   | _ => False
   end.
 Proof. vm_compute. repeat split; reflexivity. Qed.
